@@ -584,7 +584,13 @@ func runBatch(bin string, race bool, prop string, seed uint64, tc tierCfg, outRo
 		wg.Add(1)
 		go func(w int) {
 			defer wg.Done()
-			e := append(append([]string{}, env...), fmt.Sprintf("VERIF_START=%d", w))
+			// the race-detector batch explores a disjoint range of run
+			// indexes (different tapes), not the plain batch's over again
+			start := uint64(w)
+			if race {
+				start += 1_000_000_000 - 1_000_000_000%uint64(tc.workers)
+			}
+			e := append(append([]string{}, env...), fmt.Sprintf("VERIF_START=%d", start))
 			res[w] = runWorker(bin, e, outDir, w)
 		}(w)
 	}
